@@ -29,6 +29,7 @@ def P(pid):
     meta = {'explanation': '', 'assumptions': []}
     if pid == 'C01':
         R = [
+            ('RF-D identity / zero guards test the value that is used afterwards', rf_gates.rule_guards_test_final_value, 4),
             ('RF-B pass-through arguments keep their role', rf_consts.rule_argument_roles, 40),
             ('RF-A option-normalisation sign/verify', lambda c: rf_consts.rule_option_normalisation(c, [T.SIG + 'sign', T.SIG + 'verify']), 4),
             ('RF-B interface constants sign/verify', lambda c: rf_consts.rule_interface_constants(c, [T.SIG + 'sign', T.SIG + 'verify']), 8),
@@ -63,6 +64,7 @@ def P(pid):
                                'messages, header and the interface constants in its data-dependence slice. Collision resistance is assumed.')
     elif pid == 'C04':
         R = [
+            ('RF-D identity / zero guards test the value that is used afterwards', rf_gates.rule_guards_test_final_value, 4),
             ('RF-Y failures of fallible operations are never discarded', rf_errors.rule_errors_not_discarded, 60),
             ('RF-B pass-through arguments keep their role', rf_consts.rule_argument_roles, 40),
             ('RF-B message lists handed down whole', rf_consts.rule_list_integrity, 15),
@@ -80,6 +82,7 @@ def P(pid):
                                'on every constructor path. Knowledge soundness of the sigma protocol itself is not decided.')
     elif pid == 'C06':
         R = [
+            ('RF-D identity / zero guards test the value that is used afterwards', rf_gates.rule_guards_test_final_value, 4),
             ('RF-Y failures of fallible operations are never discarded', rf_errors.rule_errors_not_discarded, 60),
             ('RF-B pass-through arguments keep their role', rf_consts.rule_argument_roles, 40),
             ('RF-B message lists handed down whole', rf_consts.rule_list_integrity, 15),
@@ -135,6 +138,7 @@ def P(pid):
                                'under cfg(test)) equals the mocked one and the consumer guard. The Schnorr algebra is not decided.')
     elif pid == 'C05':
         R = [
+            ('RF-D identity / zero guards test the value that is used afterwards', rf_gates.rule_guards_test_final_value, 4),
             ('RF-B pass-through arguments keep their role', rf_consts.rule_argument_roles, 40),
             ('RF-B message lists handed down whole', rf_consts.rule_list_integrity, 15),
             ('RF-A option-normalisation blind entry points', lambda c: rf_consts.rule_option_normalisation(c, BLIND_ENTRIES), 14),
@@ -211,6 +215,7 @@ def P(pid):
                                'cannot depend on thread interleavings.')
     elif pid == 'C12':
         R = [
+            ('RF-D identity / zero guards test the value that is used afterwards', rf_gates.rule_guards_test_final_value, 4),
             ('RF-L update_index guard and generator offset', rf_frame.rule_update_index_guard, 2),
             ('RF-B interface constants of update_signature', lambda c: rf_consts.rule_interface_constants(c, [T.SIG + 'update_signature', T.SIG + 'sign']), 6),
             ('RF-S no shared state (history quantifier)', rf_consts.rule_shared_state, 3),
